@@ -32,8 +32,11 @@ RMod(a, b) == RSub(a, RMulInt(b, Trunc(RDiv(a, b))))
 RECURSIVE RPowInt(_, _)
 RPowInt(a, e) == IF e = 0 THEN [n |-> 1, d |-> 1] ELSE RMul(a, RPowInt(a, e - 1))
 
+\* "open": a value outside the modelled arithmetic (fractional exponent): any observed value is accepted for it
+OpenV == [k |-> "open", n |-> 0, d |-> 1]
 Arith(op, x, y) ==
-  IF ~IsRat(x) \/ ~IsRat(y) THEN NaNV
+  IF x.k = "open" \/ y.k = "open" THEN OpenV
+  ELSE IF ~IsRat(x) \/ ~IsRat(y) THEN NaNV
   ELSE LET a == R(x) b == R(y) IN
        CASE op = "add" -> FromR(RAdd(a, b))
          [] op = "sub" -> FromR(RSub(a, b))
@@ -42,7 +45,8 @@ Arith(op, x, y) ==
          [] op = "mod" -> IF b.n = 0 THEN NaNV ELSE FromR(RMod(a, b))
          [] op = "pow" -> IF b.d = 1 /\ b.n >= 0 THEN FromR(RPowInt(a, b.n))
                           ELSE IF b.d = 1 /\ a.n # 0 THEN FromR(RDiv([n |-> 1, d |-> 1], RPowInt(a, 0 - b.n)))
-                          ELSE NaNV          \* fractional exponents are outside the modelled domain (cases avoid them)
+                          ELSE IF b.d = 1 THEN [k |-> "pinf", n |-> 0, d |-> 1]      \* 0 ^ negative
+                          ELSE OpenV         \* fractional exponents are outside the modelled domain
 CmpOps == {"eq", "neq", "gt", "gte", "lt", "lte"}
 Holds(op, x, y) == IF ~IsRat(x) \/ ~IsRat(y) THEN op = "neq" ELSE RCmp(op, R(x), R(y))
 NumLt(x, y) == IsRat(x) /\ IsRat(y) /\ RLt(R(x), R(y))
